@@ -748,9 +748,22 @@ func ruleTableIndex(p *Prog, r *Out) {
 			if !ok {
 				return true
 			}
-			t := p.text(ifs.Cond)
-			if strings.Contains(t, "index < 0") && strings.Contains(t, "index >= len(table)") {
-				rng = true
+			// rejected exactly when index < 0 or index >= len(table)
+			if atoms, pure := pureJunction(ifs.Cond, false); pure && len(atoms) == 2 {
+				lo, hi := false, false
+				for _, a := range atoms {
+					if c, ok := p.canonCmp(a.Cond, nil); ok && !a.Val && c.Op == "le" {
+						if c.L.eq(Lin{T: map[string]int64{"index": 1}, C: 1}) {
+							lo = true
+						}
+						if c.L.eq(Lin{T: map[string]int64{"len(table)": 1, "index": -1}}) {
+							hi = true
+						}
+					}
+				}
+				if res := firstReturn(ifs.Body); lo && hi && len(res) == 1 && p.text(res[0]) == "nil" {
+					rng = true
+				}
 			}
 			if c, ok := p.canonCmp(ifs.Cond, nil); ok && c.Op == "le" {
 				mi, _ := p.pkgConst("maxIndex")
